@@ -1849,7 +1849,8 @@ class ArmV6:
         self.registers.changed_registers = [False] * 16
         self.executed_opcode = opcode
         if self.in_it_block():
-            opcode.execute(self)
+            if self.condition_passed():
+                opcode.execute(self)
             self.registers.it_advance()
-        else:
+        elif self.condition_passed():
             opcode.execute(self)
